@@ -228,3 +228,10 @@ func (c *Ctx) MarkShared(x any) {}
 
 // TrackFootprint switches write-footprint checking on or off.
 func (c *Ctx) TrackFootprint(on bool) {}
+
+// Or, And, Implies: Boolean connectives that do not short-circuit, so that
+// under the symbolic executor a compound condition is one term instead of a
+// fork per operand (both operands are always evaluated).
+func (c *Ctx) Or(a, b bool) bool      { return a || b }
+func (c *Ctx) And(a, b bool) bool     { return a && b }
+func (c *Ctx) Implies(a, b bool) bool { return !a || b }
